@@ -27,6 +27,8 @@ ALLOW = {
     ("coerce_default_value", "default_input._memoized_coerced_value"):
         "written once per default; computed from the default and its type only (no request-scoped argument "
         "is passed to coerce_input_literal / coerce_input_value at that call)",
+    ("coerce_default_value", "default_input._memoized_type"):
+        "the type the memoised value was coerced for; the hit test compares it with the type in hand (ATTR-MEMO)",
 }
 
 
@@ -54,6 +56,8 @@ def run(check: Check, repo: Repo, tier: str) -> None:
     check.floor("ID-PIN", 5, "id() sites")
     X.memo_key_cover(check, repo)
     X.memo_discovery(check, repo, repo.package_modules("execution"))
+    X.attr_memo(check, repo, mods + [repo.mod("utilities.get_default_value_ast"), repo.mod("type.validate")])
+    check.floor("ATTR-MEMO", 1, "object-attribute memos")
     X.collect_guard(check, repo)
     X.handler_nulls(check, repo, repo.package_modules("execution"))
     X.zip_align(check, repo, repo.package_modules("execution"))
